@@ -18,7 +18,7 @@ RULE = ("(1) schedules: the same data directory is run with RAYON_NUM_THREADS in
         "seeded with stale *.tmp files, earlier results under the same and other names) and one data directory (index reopened up to 10 "
         "times): results unchanged, SHA-256 of blk*.dat/xor.dat and the key/value dump of the index identical before/after, strace spec "
         "'no open-for-write/unlink/rename/truncate on blk*.dat or xor.dat'. (3) thorough: ThreadSanitizer build over the parallel "
-        "workload. distinct = distinct schedules (thread->task maps) + (history kind, callback) signatures")
+        "workload and a build without the verif feature compared with the hooked build on all five callbacks. distinct = distinct schedules (thread->task maps) + (history kind, callback) signatures")
 
 THREADS = [1, 2, 3, 8, 16, 64]
 
@@ -288,8 +288,32 @@ def tsan_case(spec):
     return {"evaluations": counters["tsan_runs"], "violations": v, "inconclusive": inc, "counters": counters, "shapes": ["tsan|%s|t%d" % (coin, spec["threads"])]}
 
 
+def nohooks_case(spec):
+    """The binary built WITHOUT the verif feature must produce the same results as the hooked build (the hooks only observe)."""
+    coin = spec["coin"]
+    rng = random.Random("C13n|%s|%s" % (spec["seed"], spec["n"]))
+    chain = sched_chain(rng, coin, spec["shape"])
+    work = harness.fresh(os.path.join(spec["work"], "c%d" % spec["n"]))
+    d = os.path.join(work, "d")
+    datadir.write_datadir(d, COINS[coin], harness.simple_layout(chain))
+    hooked, plain = core.build("release"), core.build("release-nohooks")
+    v, runs = [], 0
+    for cbname in ["csvdump", "unspentcsvdump", "balances", "simplestats", "opreturn"]:
+        dg = {}
+        for name, binary in (("hooks", hooked), ("nohooks", plain)):
+            dump = harness.fresh(os.path.join(work, "o"))
+            p = harness.run_cb(binary, d, coin, cbname, dump, timeout=600)
+            runs += 1
+            v.extend(viol("nohooks:%s:%s" % (name, sig), det) for sig, det in model_check(cbname, p, dump, chain, coin))
+            dg[name] = digest_outputs(cbname, p, dump) if p.rc == 0 else None
+        if dg["hooks"] != dg["nohooks"]:
+            v.append(viol("nohooks:differs", "%s: the build without the verif feature produces a different result than the hooked build" % cbname))
+    shutil.rmtree(work, ignore_errors=True)
+    return {"evaluations": runs, "violations": v, "counters": {"runs": runs, "hooks_vs_nohooks_comparisons": 5}, "shapes": ["nohooks|%s" % coin]}
+
+
 def dispatch(spec):
-    return {"sched": sched_case, "history": history_case, "tsan": tsan_case}[spec["case"]](spec)
+    return {"sched": sched_case, "history": history_case, "tsan": tsan_case, "nohooks": nohooks_case}[spec["case"]](spec)
 
 
 def plan(chk):
@@ -317,6 +341,9 @@ def plan(chk):
         seq.append(seq[1])     # identical rerun
         specs.append(dict(case="history", coin=COIN_NAMES[n % 8], seed=chk.seed, n=n, sequence=seq, xor=(i % 2 == 0), trace=True))
     if chk.thorough:
+        for i in range(3):
+            n += 1
+            specs.append(dict(case="nohooks", coin=COIN_NAMES[(i * 3) % 8], seed=chk.seed, n=n, shape=[(60, 12), (3, 80), (1, 1)]))
         for i, t in enumerate((2, 8, 64)):
             n += 1
             specs.append(dict(case="tsan", coin=COIN_NAMES[i], seed=chk.seed, n=n, shape=[(120, 10), (5, 150)], threads=t, callbacks=["csvdump", "unspentcsvdump", "simplestats"]))
@@ -328,6 +355,7 @@ def main():
     core.build("release")
     core.ldbtool()
     if chk.thorough:
+        core.build("release-nohooks")
         try:
             core.build("tsan")
         except Inconclusive as e:
@@ -350,4 +378,4 @@ def main():
 
 
 def replay(spec):
-    core.replay_case("C13", {"sched": sched_case, "history": history_case, "tsan": tsan_case}, spec)
+    core.replay_case("C13", {"sched": sched_case, "history": history_case, "tsan": tsan_case, "nohooks": nohooks_case}, spec)
